@@ -5,5 +5,4 @@ cd "$(dirname "$0")"
 mkdir -p .work evidence
 for t in java gcc clang python3 make strace; do command -v $t >/dev/null || { echo "missing tool: $t" >&2; exit 1; }; done
 test -f /opt/veriftools/tla/tla2tools.jar
-python3 harness/gen_manifest.py --verify
 echo setup ok
